@@ -99,6 +99,31 @@ def inline_call(F, bidx, G):
         F["blocks"].append(nb)
     blk["term"] = {"k": "goto", "t": boff, "sp": sp, "inlined": G["path"]}
     F.setdefault("inlined", []).append(G["path"])
+    # the callee's return place IS the call's destination when that is a whole local of the same type: results built by the callee
+    # (`Ok(..)`, `Some(..)`) then appear as assignments to the caller's own place (in particular to _0 for a tail call), exactly as
+    # if the body had been written in the caller
+    d = call["dst"]
+    if not d.get("p") and isinstance(d.get("l"), int) and d["l"] < loff and F["locals"][d["l"]].get("ty") == G["locals"][0].get("ty"):
+        ret_l, dst_l = loff, d["l"]
+
+        def ren(o):
+            if isinstance(o, dict):
+                if "f" in o and "k" not in o:
+                    return
+                for k, v in o.items():
+                    if k == "l" and v == ret_l:
+                        o[k] = dst_l
+                    elif k != "sp":
+                        ren(v)
+            elif isinstance(o, list):
+                for x in o:
+                    ren(x)
+        for nb in F["blocks"][boff:]:
+            # drop the now trivial `dst = move dst`
+            nb["stmts"] = [st for st in nb["stmts"] if not (st.get("k") == "assign" and not st["dst"].get("p") and st["dst"].get("l") == dst_l and st["rv"].get("k") == "use" and
+                                                            st["rv"]["a"].get("k") in ("move", "copy") and st["rv"]["a"].get("p", {}).get("l") == ret_l and not st["rv"]["a"]["p"].get("p"))]
+            ren(nb["stmts"])
+            ren(nb["term"])
 
 
 STD_DISCR = {"core::option::Option": {"None": 0, "Some": 1}, "core::result::Result": {"Ok": 0, "Err": 1},
